@@ -359,6 +359,40 @@ func runC13(e *Engine, r *Report) {
 		})
 		r.check(okc, "VAL-frame", "requestHeader.decode verifies the header checksum", e.pos(dec.Pos()), "header bytes are covered by a crc32", "requestHeader.decode no longer computes the header crc32")
 	}
+	// ---- a frame is delivered (nil error) only when its payload crc32
+	// equals the header's, or the connection is encrypted (TLS integrity):
+	// no other condition may skip the comparison (e.g. "crc == 0 means none")
+	if rm := r.need("internal/transport.readMessage"); rm != nil {
+		crcF := e.Field("internal/transport", "requestHeader", "crc")
+		var isCRC32 VM = func(v ssa.Value) bool {
+			c, ok := stripConv(v).(*ssa.Call)
+			if !ok {
+				return false
+			}
+			sc := c.Call.StaticCallee()
+			return sc != nil && sc.Pkg != nil && sc.Pkg.Pkg.Path() == "hash/crc32"
+		}
+		var encrypted VM = func(v ssa.Value) bool {
+			p, ok := stripConv(v).(*ssa.Parameter)
+			if !ok {
+				return false
+			}
+			b, isB := p.Type().Underlying().(*types.Basic)
+			return isB && b.Kind() == types.Bool
+		}
+		n := 0
+		forEachInstr(rm, func(in ssa.Instruction) {
+			if !e.isSuccessReturn(in) {
+				return
+			}
+			n++
+			r.guard("VAL-frame", "delivery (nil error) in readMessage", in,
+				reqAny("payload crc32 == header crc, or the connection is encrypted",
+					reqCmp("", "==", isCRC32, fieldV(crcF)),
+					reqBool("", encrypted, true)))
+		})
+		r.floor("VAL-frame-delivery", n, 1)
+	}
 }
 
 // fields of a type covered by the constant part of its SizeUpperLimit
